@@ -226,5 +226,5 @@ def enum_long_chains(tier):
 SUBS = [
     Sub("long_chains", check, enumerate=enum_long_chains, min_nontrivial=0.0),
     Sub("all_graphs_le6", check, enumerate=enum_small, exhaustive_note="all 33868 symmetric relations on 0..6 labelled nodes", min_nontrivial=0.0),
-    Sub("random_graphs", check, strategy=random_graph, quick=2000, thorough=60000, min_nontrivial=0.2),
+    Sub("random_graphs", check, strategy=random_graph, quick=2000, thorough=60000, min_nontrivial=0.1),
 ]
